@@ -1,11 +1,55 @@
-""" C09 — commander-level check: proof obligations Supv.Props.C09, lock-step of the real Starter / Stopper with the Lean commander
-    model, Lean monitor (Supv.Spec.Cmd) on the requests the implementation emitted.  See harness/cmdh.py. """
+""" C09 — stop sequences are honoured; restart / shutdown is orderly and reaches everyone.
+    Proof obligations: Supv.Props.C09 (Stopper plans and pick-up order; on the instance FSM model, for every history: at most one
+    restart / shutdown order to the local Supervisor, sent in the step that reaches FINAL, none from FINAL).
+    Correspondence + monitors:
+      * commander level: lock-step of the real Starter / Stopper with the Lean commander model, Lean monitor (Supv.Spec.Cmd) on the requests
+        the implementation emitted (process-level and application-level stop order, only where running);
+      * cluster level: global lock-step of N real instances with the Lean cluster model under restart / shutdown requests issued on any
+        instance, crashes, cuts and restarts; every order given to a Supervisor is compared at every step; judge on the real objects:
+        never two orders to one Supervisor, an instance that gave the order is in FINAL. """
 from cmdh import commander_check, commander_replay
+
+
+def cluster_stage(chk):
+    from cluster import cluster_check, SupvisorsStates
+    cov1 = dict(chk.coverage)
+    def judge(sims, net, opts, n, info, rec):
+        out = []
+        for s in sims:
+            if len(s.orders) > 1:
+                out.append(('C09:more-than-one-order', f'the Supervisor of instance {s.k - 1} received {len(s.orders)} orders: {s.orders}'))
+            if s.orders and s.state_modes.state != SupvisorsStates.FINAL:
+                out.append(('C09:order-not-in-final', f'instance {s.k - 1} ordered its Supervisor to {s.orders[0]} and is in {s.state_modes.state.name}'))
+        return out
+    def nontrivial(lines, obs, n):
+        return any('restartLocal' in o or 'shutdownLocal' in o for o in obs)
+    st = cluster_check(chk, ['C09-', 'C02-walk'], nontrivial,
+                       'generated cluster schedules (2-5 instances) with restart / shutdown requests issued on any instance, crashes, restarts, cuts; '
+                       'non-trivial = some instance orders its Supervisor to restart / shut down; distinct = schedule seed',
+                       quick_cases=40, thorough_cases=600,
+                       sched_kwargs={'nmax': 5, 'quiet_ticks': 8, 'heal_at_end': True, 'faults_max': 18,
+                                     'rpc_names': ('restart', 'shutdown', 'restart', 'shutdown', 'end_sync')},
+                       extra_judge=judge)
+    cov2 = dict(chk.coverage)
+    chk.coverage.update(cov1)
+    chk.coverage['evaluations'] = cov1.get('evaluations', 0) + cov2.get('evaluations', 0)
+    chk.coverage['distinct_nontrivial'] = cov1.get('distinct_nontrivial', 0) + cov2.get('distinct_nontrivial', 0)
+    chk.coverage['traces_validated_against_impl'] = chk.coverage['evaluations']
+    chk.coverage['cluster_stage'] = {'schedules': st['evaluations'], 'global_steps': st['steps'], 'action_kinds': st['kinds'], 'faults': st['faults'],
+                                     'rule': cov2.get('rule'), 'distinct_nontrivial': cov2.get('distinct_nontrivial')}
 
 
 def run(chk):
     commander_check(chk, 'Supv.Props.C09', ['C09-'])
+    chk.prove('Supv.Props.C09', extra_targets=['drv_net'])
+    cluster_stage(chk)
 
 
 def replay(chk, path):
-    commander_replay(chk, path, ['C09-'])
+    import json
+    c = json.load(open(path)); r = c.get('replay', c)
+    if 'schedule_seed' in r:
+        from cluster import replay_schedule
+        replay_schedule(chk, path, ['C09-', 'C02-walk'])
+    else:
+        commander_replay(chk, path, ['C09-'])
